@@ -117,7 +117,7 @@ Theorem C10_unit_filter : forall us single uid,
 Proof. exact unit_filter_spec. Qed.
 Print Assumptions C10_unit_filter.
 
-Theorem C10_accepts : forall sk, In sk filtered_fes -> forall cfg hosted uid,
+Theorem C10_accepts : forall sk, In sk all_fes -> forall cfg hosted uid,
   accepts code sk cfg hosted uid =
     let ul := unit_list sk cfg hosted in
     Ok (cf_single cfg || zmem 0 ul || zmem 255 ul || zmem uid ul).
@@ -125,13 +125,13 @@ Proof. exact c10_accepts_spec. Qed.
 Print Assumptions C10_accepts.
 
 (* a frame for a hosted unit (any unit in single mode) is always handed to execute() *)
-Theorem C10_hosted_accepted : forall sk, In sk filtered_fes -> forall cfg hosted uid,
+Theorem C10_hosted_accepted : forall sk, In sk all_fes -> forall cfg hosted uid,
   cf_single cfg = true \/ In uid hosted -> accepts code sk cfg hosted uid = Ok true.
 Proof. exact c10_hosted_accepted. Qed.
 Print Assumptions C10_hosted_accepted.
 
 (* a frame for a foreign unit is dropped by the framer unless the list contains 0 or 255 *)
-Theorem C10_foreign_dropped : forall sk, In sk filtered_fes -> forall cfg hosted uid,
+Theorem C10_foreign_dropped : forall sk, In sk all_fes -> forall cfg hosted uid,
   cf_single cfg = false ->
   let ul := unit_list sk cfg hosted in
   zmem 0 ul = false -> zmem 255 ul = false -> zmem uid ul = false ->
@@ -139,25 +139,26 @@ Theorem C10_foreign_dropped : forall sk, In sk filtered_fes -> forall cfg hosted
 Proof. exact c10_foreign_dropped. Qed.
 Print Assumptions C10_foreign_dropped.
 
-(* broadcast enabled: unit-0 frames reach execute() even when 0 is not hosted — on the front-ends
-   whose handle() appends 0 … *)
-Theorem C10_broadcast_accepted : forall sk, In sk append0_fes -> forall cfg hosted,
+(* broadcast enabled: unit-0 frames reach execute() even when 0 is not hosted — on EVERY front-end that has
+   broadcast_enable (the sync UDP handler too since /repo 168efb6; this was C10_broadcast_accepted_full_statement,
+   refuted by sync_udp before that repair) *)
+Theorem C10_broadcast_accepted : forall sk, In sk bcast_fes -> forall cfg hosted,
   cf_bcast cfg = true -> accepts code sk cfg hosted 0 = Ok true.
 Proof. exact c10_broadcast_accepted. Qed.
 Print Assumptions C10_broadcast_accepted.
 
-(* … which is not every front-end that has broadcast_enable: the sync UDP handler lacks the append *)
-Definition C10_broadcast_accepted_full_statement : Prop :=
-  forall sk, In sk bcast_fes -> forall cfg hosted, cf_bcast cfg = true -> accepts code sk cfg hosted 0 = Ok true.
+(* the Twisted front-ends have no broadcast option: the framer gets exactly the hosted ids, so unit 0 is filtered like any id *)
+Theorem C10_twisted_accepts : forall sk, In sk nobcast_fes -> forall cfg hosted uid,
+  accepts code sk cfg hosted uid = Ok (cf_single cfg || zmem 0 hosted || zmem 255 hosted || zmem uid hosted).
+Proof. exact c10_twisted_accepts. Qed.
+Print Assumptions C10_twisted_accepts.
 
-Theorem C10_broadcast_accepted_sync_udp_refuted : ~ C10_broadcast_accepted_full_statement.
-Proof. exact c10_broadcast_accepted_refuted. Qed.
-Print Assumptions C10_broadcast_accepted_sync_udp_refuted.
-
-(* the Twisted UDP entry point calls processIncomingPacket without the unit list: TypeError *)
-Theorem C10_twisted_udp_entry_dead : forall cfg hosted uid, accepts code tw_udp cfg hosted uid = Raise TypeError.
-Proof. exact c10_tw_udp_dead. Qed.
-Print Assumptions C10_twisted_udp_entry_dead.
+(* the Twisted UDP entry point (alive since /repo b36db33; it used to raise TypeError) hands a frame to _execute exactly
+   when the asyncio datagram handler without broadcast does *)
+Theorem C10_twisted_udp_accepts_like_asyncio_udp : forall cfg hosted uid,
+  cf_bcast cfg = false -> accepts code tw_udp cfg hosted uid = accepts code aio_udp cfg hosted uid.
+Proof. exact c10_tw_udp_accepts_like_aio_udp. Qed.
+Print Assumptions C10_twisted_udp_accepts_like_asyncio_udp.
 
 (* --- non-vacuity: units 1, 2, 247 hosted on the generated asyncio TCP skeleton; a write to unit 2,
    a broadcast, a request to absent unit 9 *)
@@ -166,12 +167,14 @@ Example C10_nonvacuous :
        rq_exec := fun s : Z => (s + 1, Ok {| rs_fc := 6; rs_respond := true; rs_code := None |}) |} in
   let cfg := {| cf_single := false; cf_bcast := true; cf_ignore := true |} in
   let l := [(1, 10); (2, 20); (247, 30)] in
-  In aio_tcp all_fes /\ In aio_tcp bcast_fes /\ In aio_tcp append0_fes /\ NoDup (u_keys Z l) /\
+  In aio_tcp all_fes /\ In aio_tcp bcast_fes /\ In tw_udp nobcast_fes /\ NoDup (u_keys Z l) /\
   is_bcast Z aio_tcp cfg (mk 2) = false /\
   fst (fst (respond Z code aio_tcp cfg l (mk 2))) = [(1, 10); (2, 21); (247, 30)] /\
   respond Z code aio_tcp cfg l (mk 0) = ([(1, 11); (2, 21); (247, 31)], [], None) /\
   respond Z code aio_tcp cfg l (mk 9) = (l, [], None) /\
   accepts code aio_tcp cfg [1; 2; 247] 0 = Ok true /\
+  accepts code sync_udp cfg [1; 2; 247] 0 = Ok true /\
+  accepts code tw_udp cfg [1; 2; 247] 2 = Ok true /\ accepts code tw_udp cfg [1; 2; 247] 0 = Ok false /\
   accepts code aio_tcp {| cf_single := false; cf_bcast := false; cf_ignore := true |} [1; 2; 247] 9 = Ok false.
 Proof.
   vm_compute. repeat split; try tauto.
